@@ -4,6 +4,7 @@ package props
 
 import (
 	"fmt"
+	"sort"
 	"strings"
 	"time"
 
@@ -129,6 +130,11 @@ func genAdversarialRecs(r *vk.RNG, n int) []Rec {
 		recs = append(recs, Rec{TS: ts, Line: vk.Pick(r, []string{"x", "yy"}), Labels: l})
 	}
 	return recs
+}
+
+// sortRecs2 orders records by timestamp (any n).
+func sortRecs2(recs []Rec) {
+	sort.SliceStable(recs, func(i, j int) bool { return recs[i].TS < recs[j].TS })
 }
 
 func sortRecs(recs []Rec) {
@@ -280,6 +286,73 @@ func runC10(r *vk.Run) {
 			c.Sample("identity", map[string]any{"query": text, "label_sets": len(sets), "records": len(recs), "first_labels": recs[0].Labels})
 		}
 	})
+	// many series at once: more groups than any small fixed capacity (8, 16, 32), and -- every fifth case --
+	// more label entries in one range aggregation than any chunk a sampler may carve label sets from (2500+
+	// records of 4 labels). Each series is still exactly the samples that carry its label set
+	r.Phase("manyseries", r.N(60, 3000), func(c *vk.Case) {
+		rng := c.Rng
+		ng := vk.Pick(rng, []int{9, 12, 17, 24, 33, 40})
+		np := rng.Range(2, 4)
+		per := rng.Range(1, 3)
+		bulk := c.Idx%5 == 2
+		if bulk {
+			ng, np, per = 40, 4, 16 // 2560 records
+			c.Count("manyseries_bulk_cases", 1)
+		}
+		var recs []Rec
+		i := 0
+		for g := 0; g < ng; g++ {
+			for pd := 0; pd < np; pd++ {
+				for k := 0; k < per; k++ {
+					l := map[string]string{"job": "j", "g": fmt.Sprintf("g%02d", g), "pod": fmt.Sprintf("p%d", pd), "zone": fmt.Sprintf("z%d", (g+pd)%3)}
+					ts := metricT0 + int64(rng.Intn(20))*1e9 + 5e8 + int64(i)*1000
+					recs = append(recs, Rec{TS: ts, Line: "x", Labels: l})
+					i++
+				}
+			}
+		}
+		sortRecs2(recs)
+		env := &MEnv{Recs: recs, Msg: env0.Msg, UnwrapKeeps: env0.UnwrapKeeps, CmpFalse: env0.CmpFalse, CmpFalseBool: env0.CmpFalseBool}
+		lq := LogQ{Sel: []selMatcher{{Label: "job", Op: logql.OpEq, OpS: "=", Value: "j"}}}
+		if env.Msg {
+			lq.Stages = append(lq.Stages, stDrop([]nameOrMatcher{{Name: "msg"}}))
+		}
+		leaf := &RangeQ{Log: lq, Fn: "count_over_time", Range: 4 * time.Second}
+		if bulk || rng.Bool() {
+			// windows that overlap: a series stays in the window from one step to the next
+			leaf.Range = vk.Pick(rng, []time.Duration{12 * time.Second, 8 * time.Second, 20 * time.Second})
+		}
+		exprs := []MExpr{
+			leaf,
+			&VecAgg{Op: "sum", Inner: leaf, Grouped: true, Group: []string{"g"}},
+			// k is at least the size of every group: each group's members all come back, as they went in
+			&VecAgg{Op: vk.Pick(rng, []string{"topk", "bottomk"}), K: np + 3, Inner: leaf, Grouped: true, Group: []string{"g"}},
+			&VecAgg{Op: "topk", K: np + 3, Inner: leaf, Grouped: true, Without: true, Group: []string{"pod", "zone"}},
+			&VecAgg{Op: "count", Inner: leaf, Grouped: true, Group: []string{"g", "zone"}},
+		}
+		p := EvalP{Start: metricT0 + 4e9, End: metricT0 + 20e9, Step: 4 * time.Second}
+		for _, expr := range exprs {
+			text := expr.Text()
+			res, err := evalQuery(&MemQuerier{Recs: recs, ErrAfter: -1}, text, p)
+			c.Eval(1)
+			det := map[string]any{"query": text, "groups": ng, "pods": np, "records": len(recs), "params": p}
+			if err != nil {
+				c.Fail("", "query failed: "+text+": "+err.Error(), det)
+				return
+			}
+			if m := compareMetric(expr, env, p, res, 1e-9); m != "" {
+				det["result"] = trunc(res.Canonical(), 4000)
+				c.Fail("", fmt.Sprintf("%s over %d groups x %d pods (%d records): %s", text, ng, np, len(recs), m), det)
+				return
+			}
+			c.Count("manyseries_checks", 1)
+		}
+		c.Max("series_in_one_vector", int64(ng*np))
+		c.Nontrivial(fmt.Sprintf("many|%d", c.Idx))
+	})
+	r.Require("manyseries_checks", 100)
+	r.Require("manyseries_bulk_cases", 5)
+
 	// Identical records are one series. Groups of records that are identical in labels and line (only
 	// the timestamp differs) go through a parser stage that adds many labels (36 fields) or labels
 	// whose names collide once sanitised (http.status / http_status); whatever names the parser gives
